@@ -101,6 +101,13 @@ func main() {
 	var spec *PropSpec
 	if *only != "" {
 		ruleIDs = strings.Split(*only, ",")
+		if *only == "all" {
+			ruleIDs = nil
+			for id := range rules {
+				ruleIDs = append(ruleIDs, id)
+			}
+			ruleIDs = ruleIDsSorted(ruleIDs)
+		}
 		*noEvidence = true
 		spec = &PropSpec{ID: *propID}
 		if spec.ID == "" {
